@@ -24,7 +24,7 @@ MANIFEST = {
 
 REQUIRED = ["KV.C05.estimate_eq_spec", "KV.C05.estimate_eq_spec_tree", "KV.C05.collapse_block_perm", "KV.C05.collapse_stream_eq",
             "KV.C05.prune_stream_fixed", "KV.C05.prune_stream_unfixed_false", "KV.C05.ngram_set", "KV.C05.adjust_stream_eq", "KV.C05.adjust_stream_eq_corpus", "KV.C05.stats_eq",
-            "KV.C05.stats_eq_corpus", "KV.C05.prune_exact", "KV.C05.prune_exact_top", "KV.C05.written_set",
+            "KV.C05.stats_eq_corpus", "KV.C05.prune_exact", "KV.C05.prune_exact_top", "KV.C05.written_set", "KV.C05.written_set1",
             "KV.C05.trueCount_textbook", "KV.C05.adjCount_textbook", "KV.C05.pruned_eq_false_iff",
             "KV.C05.stats_eq_stream", "KV.C05.stats_eq_tree", "KV.C05.stats_eq_unfixed_false", "KV.C05.flush_adjusted_tree",
             "KV.C05.keep_specials_tree", "KV.C05.discounts_eq", "KV.C05.chenGoodman_value", "KV.C05.special_ids"]
